@@ -323,6 +323,9 @@ def _read_tsv_simple(path):
         # Skip the header.
         _, field_name = next(reader)
         for row in reader:
+            if not row:
+                # An empty line (e.g. a trailing newline left by an editor) is not a row.
+                continue
             cluster_id, value = row
             cluster_id = int(cluster_id)
             data[cluster_id] = _try_make_number(value)
